@@ -6,6 +6,7 @@ pub open spec fn in_qty_c(b: TransactionBuilder, a: AssetId) -> int { sum_qty(in
 pub open spec fn asset_surplus(b: TransactionBuilder) -> bool { exists|a: AssetId| in_qty_c(b, a) > out_qty_c(b, a) }
 /// what is still to be placed: total input == outputs so far + deposits + donation + left + fee set aside, in lovelace and in every asset;
 /// nothing but the output list has been touched
+#[verifier::opaque]
 pub open spec fn left_inv(old_b: TransactionBuilder, b: TransactionBuilder, it: Value, left: Value, fee_aside: nat) -> bool {
     &&& b == (TransactionBuilder { outputs: b.outputs, ..old_b })
     &&& it.coin.0 == out_coin_c(b) + left.coin.0 + fee_aside
@@ -23,6 +24,7 @@ pub proof fn lemma_left_push(old_b: TransactionBuilder, b: TransactionBuilder, b
              left2.coin.0 + o.amount.coin.0 + fa2 == left.coin.0 + fa, forall|a: AssetId| qty(left2, a) + qty(o.amount, a) == qty(left, a)
     ensures left_inv(old_b, b2, it, left2, fa2)
 {
+    reveal(left_inv);
     lemma_out_push(b.outputs.0@, o);
     assert forall|a: AssetId| qty(it, a) == out_qty_c(b2, a) + qty(left2, a) by { assert(qty(it, a) == out_qty_c(b, a) + qty(left, a)); }
 }
@@ -34,6 +36,7 @@ pub proof fn lemma_left_topup(old_b: TransactionBuilder, b: TransactionBuilder, 
              forall|a: AssetId| qty(b2.outputs.0@.last().amount, a) == qty(b.outputs.0@.last().amount, a) + qty(left, a)
     ensures it.coin.0 == out_coin_c(b2) + fa, forall|a: AssetId| qty(it, a) == out_qty_c(b2, a), b2 == (TransactionBuilder { outputs: b2.outputs, ..old_b })
 {
+    reveal(left_inv);
     let s = b.outputs.0@; let s2 = b2.outputs.0@;
     assert(out_amounts(s).drop_last() =~= out_amounts(s.drop_last()));
     assert(out_amounts(s2).drop_last() =~= out_amounts(s2.drop_last()));
@@ -51,6 +54,7 @@ pub proof fn lemma_change_final(old_b: TransactionBuilder, b_pre: TransactionBui
                  && forall|a: AssetId| qty(b_new.outputs.0@.last().amount, a) == qty(b_fee.outputs.0@.last().amount, a) + qty(left, a))
     ensures change_bal(old_b, b_new)
 {
+    reveal(left_inv);
     if b_new == b_fee {
         assert forall|a: AssetId| sum_qty(in_amounts(b_new.inputs.items()), a) + mint_delta(b_new, a) == sum_qty(out_amounts(b_new.outputs.0@), a) by { assert(qty(it, a) == out_qty_c(b_pre, a) + qty(left, a)); assert(qty(it, a) == in_qty_c(old_b, a)); }
     } else {
@@ -59,3 +63,12 @@ pub proof fn lemma_change_final(old_b: TransactionBuilder, b_pre: TransactionBui
         assert forall|a: AssetId| sum_qty(in_amounts(b_new.inputs.items()), a) + mint_delta(b_new, a) == sum_qty(out_amounts(b_new.outputs.0@), a) by { assert(qty(it, a) == out_qty_c(b2, a)); assert(qty(it, a) == in_qty_c(old_b, a)); }
     }
 }
+
+pub proof fn lemma_left_fee(old_b: TransactionBuilder, b: TransactionBuilder, it: Value, left: Value, left2: Value, fee: nat)
+    requires left_inv(old_b, b, it, left, 0), left2.coin.0 + fee == left.coin.0, left2.multiasset == left.multiasset
+    ensures left_inv(old_b, b, it, left2, fee)
+{ reveal(left_inv); }
+pub proof fn lemma_left_frame(old_b: TransactionBuilder, b: TransactionBuilder, it: Value, left: Value, fa: nat)
+    requires left_inv(old_b, b, it, left, fa)
+    ensures b == (TransactionBuilder { outputs: b.outputs, ..old_b })
+{ reveal(left_inv); }
